@@ -381,6 +381,20 @@ pub fn drive_crash(_seed: u64, tier: &str, out: &mut Out) {
             ev["ops"] = Value::Array(o);
             rebuilt += 1;
         }
+        // the shape of the writer's program (implementation-shaped: compared with MC_IO's writer for drift only):
+        // [kind, region] per operation, kind 0 = seek / position query, 1 = write, 2 = flush / close;
+        // region 0 = inside the 127 header bytes, 1 = beyond
+        let shape: Vec<Value> = log
+            .iter()
+            .filter(|r| r.ok)
+            .map(|r| {
+                let k = match r.kind { OpKind::Write => 1, OpKind::Flush | OpKind::Close => 2, _ => 0 };
+                json!([k, u8::from(r.pos_before >= 127)])
+            })
+            .collect();
+        if shape.len() <= 400 {
+            ev["shape"] = Value::Array(shape);
+        }
         out.emit(ev);
     }
     println!("stat crash_scenarios_rebuilt_by_tlc={rebuilt}");
